@@ -1339,6 +1339,15 @@ class Engine(object):
                 same = True
             elif a != b and set([a[0], b[0]]) <= set(['opaque', 'ev']) and ('opaque' in (a[0], b[0])):
                 same = False      # a freshly produced value is never a marker object created elsewhere
+            # a freshly built container is never None: list(x), tuple(x), dict(x), set(x), sorted(x), x.copy(), [..], (..), {..}
+            for x, y in ((a, b), (b, a)):
+                if y == NONE and same is None:
+                    if x[0] in ('tuple', 'list', 'dict', 'set', 'closure'):
+                        same = False
+                    elif x[0] == 'call' and x[1][0] == 'lib' and x[1][1].split('.')[-1] in ('list', 'tuple', 'dict', 'set', 'frozenset', 'sorted', 'bytearray'):
+                        same = False
+                    elif x[0] == 'call' and x[1][0] == 'attr' and x[1][-1] == 'copy' and not x[2]:
+                        same = False
             if same is not None:
                 return C(same if op == 'is' else not same)
         if op == 'not in':
